@@ -162,11 +162,19 @@ KF_C13_1(X) ==
   /\ \A i \in DOMAIN X.t.rw :
         X.t.rw[i].exc \in RwAllowed(X, X.t.rw[i]) \cup {"AssertionError", "IndexError"}
 
+\* KF-C12-3: two alignment requests at one position: the later, weaker one
+\* overwrites the earlier, stricter one.
+KF_C12_3(V) == AlignOverwritten(V)
+
 KfTags(X, clause) ==
   (IF clause = "C12_EdgeShape"
       /\ \A i \in DOMAIN Runs(X) : Runs(X)[i].V.exc = "" =>
             (C12_EdgeShape(Runs(X)[i].V) \/ KF_C12_1(Runs(X)[i].V))
    THEN {"KF-C12-1"} ELSE {})
+  \cup
+  (IF clause = "C12_Alignment"
+      /\ \A i \in DOMAIN Runs(X) : Runs(X)[i].V.exc = "" => KF_C12_3(Runs(X)[i].V)
+   THEN {"KF-C12-3"} ELSE {})
   \cup
   (IF clause \in {"C12_Completes", "C13_Completes"}
       /\ \A i \in DOMAIN Runs(X) :
@@ -191,6 +199,8 @@ Clauses(X) ==
          <<"C12_Labels", ok, AllRuns(X, LAMBDA V, r : C12_Labels(V))>>,
          <<"C12_DataConversion", ok /\ ~HasCfi(X.Vw), AllRuns(X, LAMBDA V, r : C12_DataConversion(V))>>,
          <<"C12_Operands", ok, AllRuns(X, LAMBDA V, r : C12_Operands(V, r.dec))>>,
+         <<"C12_Alignment", ok, AllRuns(X, LAMBDA V, r : C12_Alignment(V))>>,
+         <<"C13_TempSuffix", ok, AllRuns(X, LAMBDA V, r : C13_TempSuffix(V))>>,
          <<"C13_Binding", ok, AllRuns(X, LAMBDA V, r : C13_Binding(V))>>,
          <<"C13_MultipleDefinitions", dom, C13_MultipleDefinitions(X.Vw) /\ C13_MultipleDefinitions(X.Vc)>>,
          <<"C13_Undef", dom, C13_Undef(X.Vw) /\ C13_Undef(X.Vc)>>,
